@@ -27,6 +27,13 @@ Theorem C19_config_accepts_rejected_refuted :
   exists k v, documented k v = true /\ accepts k v = false.
 Proof. exists KFontStack, (JStr (T "a")). split; reflexivity. Qed.
 
+(* observation (not a separate finding): README does not say what an explicit null means; for most keys it is
+   "leave the default", for two it is an uncaught AttributeError / TypeError, for the bool keys it is false *)
+Theorem C19_null_handling :
+  decode KSccTextAlign JNull = Raise EAttribute /\ decode KSafeArea JNull = Raise EType /\
+  decode KCueId JNull = Ok (CBool false) /\ decode KFps JNull = Ok CNone /\ decode KColor JNull = Ok CNone.
+Proof. repeat split; reflexivity. Qed.
+
 Print Assumptions C19_config_accepts_bool_refuted.
 Print Assumptions C19_config_accepts_lenient_refuted.
 Print Assumptions C19_config_accepts_rejected_refuted.
